@@ -1013,6 +1013,8 @@ class Interp(object):
                 return self.nonnode_member(x)
             return g['NodeIn'][x.z]
         if k == 'graph':                       # n in G  (nx.Graph.__contains__)
+            if x.kind == 'list':
+                return False                   # TypeError (unhashable) caught by Graph.__contains__
             if x.kind != 'node':
                 return self.nonnode_member(x)
             return c.g['NodeIn'][x.z]
@@ -1076,6 +1078,8 @@ class Interp(object):
     def nonnode_member(self, x):
         if x.kind == 'none':
             return False          # None is never a node (networkx rejects it)
+        if x.kind == 'list':
+            raise PyRaise('TypeError', 'unhashable type: list')       # (Graph.__contains__ turns this into False)
         raise Undecided('membership of a %s in a node container' % x.kind)
 
     # ---------------------------------------------------------------- containers: getitem
